@@ -1,1 +1,78 @@
-// U-PARSE ghost specification (filled in below)
+// ---------------------------------------------------------------------------------------------
+// U-PARSE ghost specification.
+//
+// Cursor (parser/tokens.rs `Tokens`): (lexer tokens, next_token_id, span) where span is a window of the token list.
+//   toks(t)  the lexer's token sequence            pos(t)  index of the next token
+//   lim(t)   pos + span.len(): end of the window   ( == toks.len() unless a reservation narrowed the window )
+//   cur(t)   what peek()/take() yield: the token at pos, or a VIRTUAL EndOfSource when the window is exhausted
+//   ok_at(t, e)  t is a cursor of the window ending at e (possibly one step beyond it, with an empty span)
+//   live(t)  ok and take() is safe (pos < toks.len(): Tokens::advance's debug_assert)
+//   rem(t)   number of tokens that can still be consumed: the termination measure and the node-budget credit
+// Node buffer (parse_tree.rs `ParseBuffer`): cells [0, num_nodes) initialised, capacity fits 24-bit ids,
+//   the active private zone / open lists name cells that still hold their placeholder.
+// ---------------------------------------------------------------------------------------------
+use lexer::tokens::ltok_ok;
+use lexer::tokens::vap_ok;
+pub type LTokenId = lexer::tokens::TokenId;
+
+pub open spec fn toks(t: Tokens) -> Seq<BaseToken> { t.tokens.tokens@ }
+pub open spec fn pos(t: Tokens) -> int { t.next_token_id.0 as int }
+pub open spec fn lim(t: Tokens) -> int { t.next_token_id.0 as int + t.span@.len() }
+pub open spec fn ok_at(t: Tokens, e: int) -> bool {
+	&&& ltok_ok(*t.tokens)
+	&&& 0 <= e <= toks(t).len()
+	&&& pos(t) <= toks(t).len()
+	&&& (if pos(t) <= e { t.span@ =~= toks(t).subrange(pos(t), e) } else { t.span@.len() == 0 })
+}
+pub open spec fn live(t: Tokens) -> bool { ok_at(t, lim(t)) && pos(t) < toks(t).len() }
+pub open spec fn tok_at(t: Tokens, j: int) -> BaseToken { if 0 <= j < lim(t) && j < toks(t).len() { toks(t)[j] } else { BaseToken::EndOfSource } }
+pub open spec fn cur(t: Tokens) -> BaseToken { tok_at(t, pos(t)) }
+// last position that can be consumed: the virtual EndOfSource of a reservation, or the final real EndOfSource
+pub open spec fn endp(t: Tokens) -> int { if lim(t) >= toks(t).len() { toks(t).len() - 1 } else { lim(t) } }
+pub open spec fn rem(t: Tokens) -> int { endp(t) + 1 - pos(t) }
+pub open spec fn unreserved(t: Tokens) -> bool { lim(t) == toks(t).len() }
+// t1 continues t0 (same token list, same window) and nothing was consumed AFTER an EndOfSource was read
+pub open spec fn follows(t0: Tokens, t1: Tokens) -> bool {
+	&&& t1.tokens == t0.tokens
+	&&& ok_at(t1, lim(t0))
+	&&& pos(t0) <= pos(t1) <= endp(t0) + 1
+	&&& forall|j: int| pos(t0) <= j < pos(t1) - 1 ==> #[trigger] tok_at(t0, j) != BaseToken::EndOfSource
+}
+pub open spec fn has_message(e: BaseToken) -> bool {
+	e == BaseToken::Assignment || e == BaseToken::BraceLeft || e == BaseToken::BraceRight || e == BaseToken::BracketLeft
+	|| e == BaseToken::BracketRight || e == BaseToken::Dot || e == BaseToken::ParenLeft || e == BaseToken::ParenRight
+	|| e == BaseToken::Pipe || e == BaseToken::Semicolon || e == BaseToken::StringLiteral || e == BaseToken::Identifier
+}
+pub open spec fn is_decl_start(t: BaseToken) -> bool {
+	t == BaseToken::Pub || t == BaseToken::Extern || t == BaseToken::Import || t == BaseToken::Const || t == BaseToken::Fn
+	|| t == BaseToken::Struct || t == BaseToken::Word8 || t == BaseToken::Word16 || t == BaseToken::Word32
+	|| t == BaseToken::Word64 || t == BaseToken::Word128
+}
+
+// ---- node buffer ----
+pub open spec fn cell(b: ParseBuffer, i: int) -> Option<ParseNode> { mu_val(b.nodes@[i]) }
+pub open spec fn pb_inv(b: ParseBuffer) -> bool {
+	&&& b.num_nodes <= b.nodes@.len() <= 0x1000000
+	&&& forall|i: int| 0 <= i < b.num_nodes ==> mu_val(#[trigger] b.nodes@[i]).is_some()
+	&&& match b.active_private_zone { Some(z) => u24v(z.0) < b.num_nodes && cell(b, u24v(z.0)) == Some(ParseNode::EndlessPrivateZone), None => true }
+}
+pub open spec fn recent(b: ParseBuffer, n: NodeId) -> bool { u24v(n.0) + 1 == b.num_nodes }
+pub open spec fn unpatched(b: ParseBuffer, n: NodeId) -> bool { u24v(n.0) < b.num_nodes && cell(b, u24v(n.0)) == Some(ParseNode::UnpatchedListItem) }
+pub open spec fn list_ok(b: ParseBuffer, l: Option<ActiveList>) -> bool {
+	match l { Some(a) => unpatched(b, a.last_node) && u24v(a.first_node.0) <= u24v(a.last_node.0), None => true }
+}
+// b1 extends b0: same slice, same capacity, nodes only appended, and every placeholder cell of b0 that b0's owner may
+// still want to patch (UnpatchedListItem) is untouched
+pub open spec fn extends(b0: ParseBuffer, b1: ParseBuffer) -> bool {
+	&&& b1.nodes@.len() == b0.nodes@.len()
+	&&& b0.num_nodes <= b1.num_nodes
+	&&& forall|i: int| 0 <= i < b0.num_nodes && mu_val(#[trigger] b0.nodes@[i]) == Some(ParseNode::UnpatchedListItem) ==> mu_val(b1.nodes@[i]) == Some(ParseNode::UnpatchedListItem)
+}
+
+// b1 is b0 with exactly n nodes appended and nothing else changed
+pub open spec fn appended(b0: ParseBuffer, b1: ParseBuffer, n: int) -> bool {
+	&&& b1.nodes@.len() == b0.nodes@.len()
+	&&& b1.num_nodes == b0.num_nodes + n
+	&&& b1.active_private_zone == b0.active_private_zone
+	&&& forall|i: int| 0 <= i < b0.num_nodes ==> mu_val(b1.nodes@[i]) == mu_val(#[trigger] b0.nodes@[i])
+}
